@@ -231,14 +231,14 @@ func (fr *Frame) builtin(b *ssa.Builtin, c *ssa.CallCommon, resT types.Type, set
 			setRes(&Val{T: fmt.Sprintf("(slen %s)", arg(0).T)})
 		case *types.Map:
 			_, _, cn := g.mapArrNames(u)
-			setRes(&Val{T: g.define(fr.prefix+"maplen", idxSort, fmt.Sprintf("(ite (= %s 0) #x0000000000000000 (select %s %s))", arg(0).T, g.heapArr(h, cn, g.heapSort[cn]), arg(0).T))})
+			setRes(&Val{T: g.define(fr.prefix+"maplen", g.IS(), fmt.Sprintf("(ite (= %s 0) %s (select %s %s))", arg(0).T, g.ilit(0), g.heapArr(h, cn, g.heapSort[cn]), arg(0).T))})
 		case *types.Array:
-			setRes(&Val{T: bvInt(u.Len(), 64)})
+			setRes(&Val{T: g.ilit(u.Len())})
 		case *types.Pointer:
-			setRes(&Val{T: bvInt(u.Elem().Underlying().(*types.Array).Len(), 64)})
+			setRes(&Val{T: g.ilit(u.Elem().Underlying().(*types.Array).Len())})
 		case *types.Chan:
 			r := fr.symbolic("chanlen", resT)
-			fr.assume(fmt.Sprintf("(bvsge %s #x0000000000000000)", r.T), "len(chan) >= 0")
+			fr.assume(g.ile(g.ilit(0), r.T), "len(chan) >= 0")
 			setRes(r)
 		default:
 			panic(genErr("len of " + t.String()))
@@ -249,7 +249,7 @@ func (fr *Frame) builtin(b *ssa.Builtin, c *ssa.CallCommon, resT types.Type, set
 		case *types.Slice:
 			setRes(&Val{T: fmt.Sprintf("(s_cap %s)", arg(0).T)})
 		case *types.Array:
-			setRes(&Val{T: bvInt(u.Len(), 64)})
+			setRes(&Val{T: g.ilit(u.Len())})
 		default:
 			r := fr.symbolic("cap", resT)
 			setRes(r)
@@ -284,6 +284,9 @@ func (fr *Frame) builtin(b *ssa.Builtin, c *ssa.CallCommon, resT types.Type, set
 			if signed {
 				op = "bvslt"
 			}
+			if g.intMode {
+				op = "<"
+			}
 			if b.Name() == "min" {
 				cur = fmt.Sprintf("(ite (%s %s %s) %s %s)", op, arg(i).T, cur, arg(i).T, cur)
 			} else {
@@ -306,7 +309,8 @@ func (fr *Frame) appendOp(c *ssa.CallCommon, setRes func(*Val), h Heap, name str
 	el := st.Elem()
 	es := g.sortOf(el)
 	s := fr.val(c.Args[0]).T
-	// second argument: slice (append(s, t...)) or string
+	en, esrt := g.elemArrName(el)
+	earr := g.heapArr(h, en, esrt)
 	var tlen string
 	var telem func(j string) string
 	if isString(c.Args[1].Type()) {
@@ -316,32 +320,27 @@ func (fr *Frame) appendOp(c *ssa.CallCommon, setRes func(*Val), h Heap, name str
 	} else {
 		t := fr.val(c.Args[1]).T
 		tlen = fmt.Sprintf("(s_len %s)", t)
-		en, esrt := g.elemArrName(el)
-		earr := g.heapArr(h, en, esrt)
 		telem = func(j string) string {
-			return fmt.Sprintf("(select (select %s (s_arr %s)) (bvadd (s_off %s) %s))", earr, t, t, j)
+			return fmt.Sprintf("(select (select %s (s_arr %s)) %s)", earr, t, g.iadd("(s_off "+t+")", j))
 		}
 	}
-	en, esrt := g.elemArrName(el)
-	earr := g.heapArr(h, en, esrt)
-	newLen := g.define(fr.prefix+"applen", idxSort, fmt.Sprintf("(bvadd (s_len %s) %s)", s, tlen))
-	fits := g.define(fr.prefix+"appfits", "Bool", fmt.Sprintf("(bvsle %s (s_cap %s))", newLen, s))
-	fr.oblig("append", "safety", "", fmt.Sprintf("(bvsle %s #x0000ffffffffffff)", newLen), "append: length in range", c.Pos())
+	newLen := g.define(fr.prefix+"applen", g.IS(), g.iadd("(s_len "+s+")", tlen))
+	fits := g.define(fr.prefix+"appfits", "Bool", g.ile(newLen, "(s_cap "+s+")"))
+	fr.oblig("append", "safety", "", g.ile(newLen, g.maxLen()), "append: length in range", c.Pos())
 	r, nh := fr.freshRef(h, "append_"+name)
-	newCap := g.fresh(fr.prefix+"appcap", idxSort)
-	g.defs = append(g.defs, fmt.Sprintf("(and (bvsge %s %s) (bvsle %s #x0000ffffffffffff))", newCap, newLen, newCap))
+	newCap := g.fresh(fr.prefix+"appcap", g.IS())
+	g.defs = append(g.defs, and(g.ile(newLen, newCap), g.ile(newCap, g.maxLen())))
 	resArr := ite(fits, fmt.Sprintf("(s_arr %s)", s), r)
-	resOff := ite(fits, fmt.Sprintf("(s_off %s)", s), bvInt(0, 64))
+	resOff := ite(fits, fmt.Sprintf("(s_off %s)", s), g.ilit(0))
 	resCap := ite(fits, fmt.Sprintf("(s_cap %s)", s), newCap)
 	res := g.define(fr.prefix+name, "Slice", fmt.Sprintf("(mk_slice %s %s %s %s)", resArr, resOff, newLen, resCap))
-	// contents of the destination backing array
 	oldA := fmt.Sprintf("(select %s (s_arr %s))", earr, s)
-	na := g.fresh(fr.prefix+"apparr", "(Array "+idxSort+" "+es+")")
-	start := g.define(fr.prefix+"appstart", idxSort, fmt.Sprintf("(bvadd (s_off %s) (s_len %s))", res, s))
-	// i in [start, start+tlen): appended element; otherwise: old content (in place) or copied prefix (fresh)
-	body := fmt.Sprintf("(ite (and (bvule %s i) (bvult i (bvadd %s %s))) %s (ite %s (select %s i) (select %s (bvadd (s_off %s) i))))",
-		start, start, tlen, telem(fmt.Sprintf("(bvsub i %s)", start)), fits, oldA, oldA, s)
-	g.defs = append(g.defs, fmt.Sprintf("(forall ((i (_ BitVec 64))) (! (= (select %s i) %s) :pattern ((select %s i))))", na, body, na))
+	na := g.fresh(fr.prefix+"apparr", "(Array "+g.IS()+" "+es+")")
+	start := g.define(fr.prefix+"appstart", g.IS(), g.iadd("(s_off "+res+")", "(s_len "+s+")"))
+	// i in [start, start+tlen): appended element; otherwise old content (in place) or the copied prefix (fresh array)
+	inApp := and(g.ile(start, "i"), g.ilt("i", g.iadd(start, tlen)))
+	body := fmt.Sprintf("(ite %s %s (ite %s (select %s i) (select %s %s)))", inApp, telem(g.isub("i", start)), fits, oldA, oldA, g.iadd("(s_off "+s+")", "i"))
+	g.defs = append(g.defs, fmt.Sprintf("(forall ((i %s)) (! (= (select %s i) %s) :pattern ((select %s i))))", g.IS(), na, body, na))
 	nh[en] = g.define(en, esrt, fmt.Sprintf("(store %s %s %s)", earr, resArr, na))
 	setRes(&Val{T: res})
 	return nh
@@ -365,14 +364,15 @@ func (fr *Frame) copyOp(c *ssa.CallCommon, setRes func(*Val), h Heap, name strin
 		t := fr.val(c.Args[1]).T
 		slen = fmt.Sprintf("(s_len %s)", t)
 		selem = func(j string) string {
-			return fmt.Sprintf("(select (select %s (s_arr %s)) (bvadd (s_off %s) %s))", earr, t, t, j)
+			return fmt.Sprintf("(select (select %s (s_arr %s)) %s)", earr, t, g.iadd("(s_off "+t+")", j))
 		}
 	}
-	n := g.define(fr.prefix+"copyn", idxSort, fmt.Sprintf("(ite (bvslt (s_len %s) %s) (s_len %s) %s)", d, slen, d, slen))
+	n := g.define(fr.prefix+"copyn", g.IS(), fmt.Sprintf("(ite %s (s_len %s) %s)", g.ilt("(s_len "+d+")", slen), d, slen))
 	oldA := fmt.Sprintf("(select %s (s_arr %s))", earr, d)
-	na := g.fresh(fr.prefix+"copyarr", "(Array "+idxSort+" "+es+")")
-	body := fmt.Sprintf("(ite (and (bvule (s_off %s) i) (bvult i (bvadd (s_off %s) %s))) %s (select %s i))", d, d, n, selem(fmt.Sprintf("(bvsub i (s_off %s))", d)), oldA)
-	g.defs = append(g.defs, fmt.Sprintf("(forall ((i (_ BitVec 64))) (! (= (select %s i) %s) :pattern ((select %s i))))", na, body, na))
+	na := g.fresh(fr.prefix+"copyarr", "(Array "+g.IS()+" "+es+")")
+	inDst := and(g.ile("(s_off "+d+")", "i"), g.ilt("i", g.iadd("(s_off "+d+")", n)))
+	body := fmt.Sprintf("(ite %s %s (select %s i))", inDst, selem(g.isub("i", "(s_off "+d+")")), oldA)
+	g.defs = append(g.defs, fmt.Sprintf("(forall ((i %s)) (! (= (select %s i) %s) :pattern ((select %s i))))", g.IS(), na, body, na))
 	nh := h.clone()
 	nh[en] = g.define(en, esrt, fmt.Sprintf("(ite (= (s_arr %s) 0) %s (store %s (s_arr %s) %s))", d, earr, earr, d, na))
 	setRes(&Val{T: n})
@@ -425,7 +425,8 @@ func (fr *Frame) intrinsic(key string, callee *ssa.Function, c *ssa.CallCommon, 
 		case "Store":
 			return g.store(h, a, args[1].T), true
 		case "Add":
-			nv := g.define(fr.prefix+"atomic_new", g.sortOf(a.finalType()), fmt.Sprintf("(bvadd %s %s)", cur, args[1].T))
+			nv := g.define(fr.prefix+"atomic_new", g.sortOf(a.finalType()), g.iadd(cur, args[1].T))
+			fr.overflowOblig(nv, a.finalType(), key, c.Pos())
 			setRes(&Val{T: nv})
 			return g.store(h, a, nv), true
 		case "Swap":
